@@ -177,21 +177,27 @@ func vfRunBuild(sc vfScenario, quiet, stub, ignoreParams, ignoreServices bool) v
 	out := &vfOut{}
 	cmd := NewBuildCmd("", "dev")
 	cmd.SetOut(out)
+	// the flags go through cobra's own ParseFlags, as Execute does before RunE:
+	// whatever flag parsing prints (deprecation notices) reaches the SetOut writer
+	var args []string
 	for _, p := range sc.patterns {
-		_ = cmd.Flags().Set("input", p)
+		args = append(args, "--input", p)
 	}
-	_ = cmd.Flags().Set("output", "out.go")
+	args = append(args, "--output", "out.go")
 	if quiet {
-		_ = cmd.Flags().Set("quiet", "true")
+		args = append(args, "--quiet")
 	}
 	if stub {
-		_ = cmd.Flags().Set("stub", "true")
+		args = append(args, "--stub")
 	}
 	if ignoreParams {
-		_ = cmd.Flags().Set("ignore-missing-params", "true")
+		args = append(args, "--ignore-missing-params")
 	}
 	if ignoreServices {
-		_ = cmd.Flags().Set("ignore-missing-services", "true")
+		args = append(args, "--ignore-missing-services")
+	}
+	if perr := cmd.ParseFlags(args); perr != nil {
+		return vfRunResult{err: perr, stdout: out.text}
 	}
 	err := cmd.RunE(cmd, nil)
 	return vfRunResult{err: err, stdout: out.text, writes: runner.VfEnv.Writes, log: runner.VfEnv.Log, fmtLog: template.VfFmtEnv.Calls, touched: runner.VfEnv.Touched}
@@ -346,8 +352,10 @@ func VF_C10_contract() {
 // effects are unchanged.
 func VF_C10_quiet() {
 	sc := vfScenarioChoice()
-	loud := vfRunBuild(sc, false, false, false, false)
-	quiet := vfRunBuild(sc, true, false, false, false)
+	// every combination of the remaining flags
+	stub, ip, is := vfBool("stub"), vfBool("ignoreParams"), vfBool("ignoreServices")
+	loud := vfRunBuild(sc, false, stub, ip, is)
+	quiet := vfRunBuild(sc, true, stub, ip, is)
 	vfAssert(quiet.stdout == "", "--quiet prints nothing")
 	vfAssert((quiet.err == nil) == (loud.err == nil), "--quiet does not change the exit status")
 	vfAssert(len(quiet.writes) == len(loud.writes) && len(quiet.touched) == len(loud.touched), "--quiet does not change the file effect")
